@@ -104,7 +104,7 @@ class G:
 # --------------------------------------------------------------------------- op templates
 
 def _const(rng, shape, kind=None):
-    kind = kind or rng.choice(["normal", "normal", "normal", "pos", "neg", "small", "const", "big"])
+    kind = kind or rng.choice(["normal", "normal", "normal", "pos", "neg", "small", "const", "big", "tiny", "rowtiny"])
     n = int(np.prod(shape)) if len(shape) else 1
     r = np.random.RandomState(rng.randrange(2 ** 31))
     if kind == "normal":
@@ -117,6 +117,16 @@ def _const(rng, shape, kind=None):
         a = r.randn(n) * 1e-3
     elif kind == "const":
         a = np.full(n, r.randn())
+    elif kind == "tiny":
+        a = r.randn(n) * 1e-6
+    elif kind == "rowtiny":
+        a = r.randn(n)
+        if len(shape) >= 2:   # one channel with a range far below the 1e-4 floor, one all-zero channel
+            a = a.reshape(shape)
+            a[0] = a[0] * 1e-7
+            if shape[0] > 1:
+                a[-1] = 0.0
+            a = a.reshape(-1)
     else:
         a = r.randn(n) * 50
     return a.astype(np.float32).reshape(shape)
@@ -505,11 +515,13 @@ def gen_model(rng, n_ops=None, n_subgraphs=1, kinds=None, share=0.0, own_buffers
     return g.bytes(), info
 
 
-def random_inputs(model_bytes, rng, sg_info=None, n=1, scale=1.0):
+def random_inputs(model_bytes, rng, sg_info=None, n=1, scale=None):
     """signature-keyed input data for calibrate()/validate(): {sig_key or None: [ {arg: array} ]}"""
     m = flatbuffer_utils.read_model_from_bytearray(bytearray(model_bytes))
     out = {}
     r = np.random.RandomState(rng.randrange(2 ** 31))
+    if scale is None:
+        scale = rng.choice([1.0, 1.0, 1.0, 1.0, 3.0, 0.05, 1e-5])
     sigs = m.signatureDefs or []
     for sd in sigs:
         sg = m.subgraphs[sd.subgraphIndex]
